@@ -364,7 +364,7 @@ def run_job_direct(ws, job, md, timeout=None):
     return res
 
 
-def run_jobs(ws, features, jobs, workers=None, progress=True, need_playback=None, deadline=None):
+def run_jobs(ws, features, jobs, workers=None, progress=True, need_playback=None, deadline=None, soft_deadline=None):
     """deadline (epoch seconds): jobs not finished by then are stopped / not started and come back as status
     'timeout' with a note starting 'exceeded run budget' (= not explored)."""
     workers = min(workers or max(2, min(NCPU - 2, len(jobs))), mem_workers())
@@ -378,6 +378,12 @@ def run_jobs(ws, features, jobs, workers=None, progress=True, need_playback=None
             # run with the fully qualified name so that --exact matches
             job._full = full[job.name]
         left = None
+        if soft_deadline and job.prio >= 8 and time.time() > soft_deadline:
+            # "as far as the budget allows" obligations are not started in the second half of the run budget
+            r = Result(job)
+            r.status = "timeout"
+            r.note = "exceeded run budget (extra obligation, not started)"
+            return r
         if deadline:
             left = deadline - time.time()
             if left < 10:
